@@ -150,6 +150,7 @@ theorem inv_reach {O : Oracle} {script : List Item} {c : Conf} (h : Reach O scri
 
 def rank : Pc → Nat
   | .start => 6
+  | .recvStart => 1
   | .readHdr _ => 5
   | .writeHs _ => 4
   | .readAck _ => 3
